@@ -82,6 +82,22 @@ func lockIdentity(v ssa.Value) string {
 		return "param:" + x.Name()
 	case *ssa.FreeVar:
 		return "free:" + x.Name()
+	case *ssa.Alloc:
+		// a parameter (the receiver) that a closure captures is spilled into a
+		// cell: the cell that is written once, with the parameter, stands for it
+		var stored ssa.Value
+		n := 0
+		if refs := x.Referrers(); refs != nil {
+			for _, r := range *refs {
+				if st, ok := r.(*ssa.Store); ok && st.Addr == ssa.Value(x) {
+					stored = st.Val
+					n++
+				}
+			}
+		}
+		if prm, ok := stored.(*ssa.Parameter); ok && n == 1 {
+			return lockIdentity(prm)
+		}
 	}
 	return ""
 }
